@@ -1,9 +1,13 @@
+//go:debug randseednop=0
 package c09
 
 import (
 	"testing"
 
 	"verif/sim"
+	_ "verif/simtest/c12" // registers C09/rest-builder-bid (bids as the REST interface hands them out)
 )
 
+// randseednop=0: the scenario of package c12 seeds the math/rand global source from its plan (vouch draws the
+// registration job's time from it).
 func TestWorker(t *testing.T) { sim.WorkerMain(t) }
